@@ -31,6 +31,14 @@ with MODELLED_CACHES (a new cache breaks the correspondence until classified); t
 theorems (value = function of the key; entries present at the publication of `_built` = post-build values; nothing
 evicts component entries) are checked on the real objects; the scratch-context theorem is tied by a
 non-interference differential (adversarial states injected between clear() and use).
+XPath through elementpath (XP_XSD, XSD 1.1: assertion facets, xs:assert, type alternatives, identity constraints, open
+content): (a) EXHAUSTIVE single-preemption family — thread A suspended at every function call it makes inside
+xmlschema OR elementpath, thread B runs a whole call in the window; (b) random schedules that also switch at
+elementpath calls and lines; (c) tables regenerated from the source: every class-level / module-level mutable object
+(shared by all threads and all schemas) must be classified (MODELLED_GLOBALS) and the ones classified constant must
+have the same content fingerprint after the whole run; every XPath evaluation site must build its context in the call
+(MODELLED_XPATH_SITES); (d) Lean: percall_context_no_interference / shared_context_race_counterexample, mode read from
+the source and compared with the outcome of the pre-emption family.
 Known finding C18-F3 (notes/findings/C18.json, notes/fixes/C18-selected-by-snapshot.patch): forced window + random
 line-level schedules on F3_XSD.
 
@@ -175,8 +183,13 @@ def build_state(schema: Any) -> list:
     return [out, bool(schema.built), len(list(schema.maps.iter_globals()))]
 
 
+XSD11_SCHEMAS: set = set()
+
+
 def fresh(xsd: str, build: bool) -> Any:
     import xmlschema
+    if xsd in XSD11_SCHEMAS:
+        return xmlschema.XMLSchema11(xsd, build=build)
     return xmlschema.XMLSchema(xsd, build=build)
 
 
@@ -1328,6 +1341,349 @@ def forced_scratch_lax(ctx: Ctx, drv: Optional[Driver]) -> None:
 
 
 
+# =============================================================================================
+#  XPath evaluated through elementpath with a per-call context; class-level / module-level shared objects
+# =============================================================================================
+XP_XSD = """<xs:schema xmlns:xs="http://www.w3.org/2001/XMLSchema" targetNamespace="urn:x" xmlns:x="urn:x"
+    elementFormDefault="qualified">
+ <xs:simpleType name="percent"><xs:restriction base="xs:integer">
+   <xs:assertion test="$value ge 0 and $value le 100"/></xs:restriction></xs:simpleType>
+ <xs:simpleType name="even"><xs:restriction base="xs:integer">
+   <xs:assertion test="$value mod 2 = 0"/></xs:restriction></xs:simpleType>
+ <xs:simpleType name="code"><xs:restriction base="xs:string">
+   <xs:assertion test="string-length($value) = 3"/></xs:restriction></xs:simpleType>
+ <xs:complexType name="Range">
+   <xs:sequence><xs:element name="lo" type="x:percent"/><xs:element name="hi" type="x:percent"/></xs:sequence>
+   <xs:attribute name="step" type="x:even"/>
+   <xs:assert test="x:lo le x:hi"/>
+ </xs:complexType>
+ <xs:complexType name="MsgBase"><xs:simpleContent><xs:extension base="xs:string">
+   <xs:attribute name="kind" type="xs:string"/><xs:attribute name="id" type="xs:int" use="required"/>
+ </xs:extension></xs:simpleContent></xs:complexType>
+ <xs:complexType name="MsgNum"><xs:simpleContent><xs:restriction base="x:MsgBase">
+   <xs:simpleType><xs:restriction base="xs:string"><xs:pattern value="[0-9]+"/></xs:restriction></xs:simpleType>
+ </xs:restriction></xs:simpleContent></xs:complexType>
+ <xs:complexType name="MsgCode"><xs:simpleContent><xs:restriction base="x:MsgBase">
+   <xs:simpleType><xs:restriction base="x:code"/></xs:simpleType>
+ </xs:restriction></xs:simpleContent></xs:complexType>
+ <xs:complexType name="Open">
+   <xs:openContent mode="interleave"><xs:any namespace="##other" processContents="lax"/></xs:openContent>
+   <xs:sequence><xs:element name="a" type="x:even" minOccurs="0" maxOccurs="unbounded"/></xs:sequence>
+ </xs:complexType>
+ <xs:element name="root">
+  <xs:complexType><xs:sequence>
+    <xs:element name="level" type="x:percent" minOccurs="0" maxOccurs="unbounded"/>
+    <xs:element name="range" type="x:Range" minOccurs="0" maxOccurs="unbounded"/>
+    <xs:element name="msg" type="x:MsgBase" minOccurs="0" maxOccurs="unbounded">
+      <xs:alternative test="@kind = 'num'" type="x:MsgNum"/>
+      <xs:alternative test="@kind = 'code'" type="x:MsgCode"/>
+    </xs:element>
+    <xs:element name="ref" type="xs:int" minOccurs="0" maxOccurs="unbounded"/>
+    <xs:element name="open" type="x:Open" minOccurs="0"/>
+  </xs:sequence></xs:complexType>
+  <xs:unique name="ul"><xs:selector xpath="x:level"/><xs:field xpath="."/></xs:unique>
+  <xs:key name="km"><xs:selector xpath="x:msg"/><xs:field xpath="@id"/></xs:key>
+  <xs:keyref name="kr" refer="x:km"><xs:selector xpath="x:ref"/><xs:field xpath="."/></xs:keyref>
+ </xs:element>
+</xs:schema>"""
+XSD11_SCHEMAS.add(XP_XSD)
+
+
+def xd(body: str) -> str:
+    return f'<x:root xmlns:x="urn:x" xmlns:o="urn:o">{body}</x:root>'
+
+
+XP_DOCS = [
+    xd('<x:level>7</x:level><x:level>99</x:level>'),                                                   # 0 assertion facet true
+    xd('<x:level>700</x:level><x:level>-1</x:level>'),                                                 # 1 assertion facet false
+    xd('<x:level>5</x:level><x:level>5</x:level>'),                                                    # 2 unique
+    xd('<x:range step="2"><x:lo>1</x:lo><x:hi>9</x:hi></x:range>'),                                    # 3 xs:assert true
+    xd('<x:range step="3"><x:lo>50</x:lo><x:hi>9</x:hi></x:range>'),                                   # 4 xs:assert false
+    xd('<x:range><x:lo>500</x:lo><x:hi>900</x:hi></x:range>'),                                         # 5
+    xd('<x:msg kind="num" id="1">123</x:msg><x:msg kind="code" id="2">abc</x:msg><x:ref>1</x:ref>'),   # 6 type alternatives
+    xd('<x:msg kind="num" id="1">abc</x:msg><x:msg kind="code" id="1">abcd</x:msg><x:ref>7</x:ref>'),  # 7
+    xd('<x:msg kind="other" id="3">anything</x:msg><x:msg id="4">12</x:msg>'),                         # 8
+    xd('<x:open><o:p/><x:a>2</x:a><o:q>1</o:q><x:a>4</x:a></x:open>'),                                 # 9 open content
+    xd('<x:open><x:a>3</x:a><o:p/><x:a>8</x:a></x:open>'),                                             # 10
+    xd('<x:level>100</x:level><x:range step="4"><x:lo>0</x:lo><x:hi>0</x:hi></x:range>'
+       '<x:msg kind="code" id="9">xyz</x:msg><x:open><x:a>0</x:a></x:open>'),                          # 11
+]
+XP_PAIRS = [(0, 1), (1, 0), (3, 4), (4, 3), (6, 7), (7, 6), (9, 10), (10, 9), (11, 1), (5, 11)]
+
+
+def library_prefixes() -> tuple:
+    import elementpath
+    return (PREFIX, os.path.dirname(os.path.abspath(elementpath.__file__)) + os.sep)
+
+
+def preempt_once(schema: Any, op: str, doc_a: str, doc_b: str, k: int) -> tuple[Any, Any, int]:
+    """Thread A runs `op(doc_a)` and is suspended at its k-th function call inside xmlschema OR elementpath; thread B
+    (the caller) runs `op(doc_b)` to the end; A resumes.  Returns (result A, result B, number of calls of A)."""
+    prefixes = library_prefixes()
+    reached, resume = threading.Event(), threading.Event()
+    out: dict = {}
+    count = [0]
+
+    def tracer(frame, event, arg):
+        if event == 'call' and frame.f_code.co_filename.startswith(prefixes):
+            count[0] += 1
+            if count[0] == k:
+                reached.set()
+                resume.wait(JOIN_TIMEOUT)
+        return None
+
+    def thread_a() -> None:
+        sys.settrace(tracer)
+        try:
+            out['A'] = call(schema, op, doc_a)
+        finally:
+            sys.settrace(None)
+            reached.set()
+    ta = threading.Thread(target=thread_a, daemon=True)
+    ta.start()
+    reached.wait(JOIN_TIMEOUT)
+    out['B'] = call(schema, op, doc_b) if k > 0 else None
+    resume.set()
+    ta.join(JOIN_TIMEOUT)
+    return out.get('A'), out.get('B'), count[0]
+
+
+def preemption_family(ctx: Ctx, base: Baseline, docs: list, pairs: list, stride_above: int, tagname: str) -> bool:
+    """EXHAUSTIVE single-preemption family: for a pair of calls (A, B) on one shared built schema, A is suspended at
+    EVERY function call it makes inside xmlschema or elementpath (every k; every `stride`-th when A makes more than
+    `stride_above` calls), B runs completely in the window, A resumes.  Any two-thread atomicity violation that one
+    pre-emption at a call boundary exposes — in particular a store into a shared object in one function and its
+    read in a later elementpath call — is hit deterministically.  Returns whether some call differed."""
+    wrong = False
+    for ia, ib in pairs:
+        op = 'iter_errors' if (ia + ib) % 2 else 'decode'
+        schema = fresh(base.xsd, True)
+        want_a, want_b = base.result(op, docs[ia]), base.result(op, docs[ib])
+        preempt_once(schema, op, docs[ia], docs[ib], -1)      # warm the caches: the cold first call is much longer
+        total = preempt_once(schema, op, docs[ia], docs[ib], -1)[2]
+        stride = 1 if total <= stride_above else (total + stride_above - 1) // stride_above
+        ctx.count(f'preempt:{tagname}:calls of A', total)
+        for k in range(1, total + 1, stride):
+            got_a, got_b, _ = preempt_once(schema, op, docs[ia], docs[ib], k)
+            case = {'preempt': tagname, 'a': ia, 'b': ib, 'op': op, 'k': k}
+            full = dict(case, xsd=base.xsd, docs=[docs[ia], docs[ib]])
+            ctx.case(case, True, tag=f'preempt/{tagname}')
+            for name, doc, got, want in (('A', docs[ia], got_a, want_a), ('B', docs[ib], got_b, want_b)):
+                if got != want:
+                    wrong = True
+                    detail = {'thread': name, 'op': op, 'xml': doc, 'threaded': got, 'single': want,
+                              'schedule': f'thread A suspended at its library call #{k} (xmlschema + elementpath), '
+                                          'thread B runs its whole call, A resumes'}
+                    fid = known_match(full, detail)
+                    if fid:
+                        ctx.known_hit(fid)
+                    else:
+                        ctx.failure('a call on the shared schema returns a result different from the single-threaded one', full, detail)
+            if len(ctx.failures) > 20:
+                return wrong
+    return wrong
+
+
+def make_xpath_tracer(sched: Sched, t: int) -> Callable:
+    """call-granularity switching that ALSO switches inside elementpath frames (they are reached only from the
+    library's validation functions: the worker runs nothing else)"""
+    prefixes = library_prefixes()
+    ep = prefixes[1]
+
+    def local(frame, event, arg):
+        if event == 'line' and not sched.free and sched.rng.random() < sched.plan.get('p_line', 0.0):
+            sched.inner_switches += 1
+            sched.switch(t)
+        return local
+
+    def tracer(frame, event, arg):
+        if event == 'call':
+            fn = frame.f_code.co_filename
+            if fn.startswith(prefixes):
+                sched.yield_point(t)
+                if fn.startswith(ep) and sched.plan.get('p_line'):
+                    return local
+        return None
+    return tracer
+
+
+def xpath_family(ctx: Ctx, batch: list, base: Baseline, n_runs: int) -> None:
+    for i in range(n_runs):
+        n = ctx.rng.choice([2, 2, 3])
+        seed = ctx.rng.getrandbits(48)
+        rng = random.Random(seed)
+        jobs = random_jobs(rng, n, XP_DOCS, ctx.rng.choice([1, 2]))
+        plan = {'p': rng.choice([0.01, 0.03, 0.1]), 'p_line': rng.choice([0.0, 0.0, 0.02, 0.1])}
+        sched = Sched(n, random.Random(seed + 1), plan)
+        case = {'xpath': i, 'seed': seed, 'threads': n, 'plan': plan, 'schema': 'xp',
+                'jobs': [[(o, XP_DOCS.index(x)) for o, x in j] for j in jobs]}
+        full = dict(case, xsd=base.xsd, docs=XP_DOCS, build_first=False, tracer='xpath')
+        _, _, nontrivial = experiment(ctx, batch, base, full, jobs, sched, False, make_xpath_tracer)
+        ctx.case(case, nontrivial, tag=f'xpath/{n} threads')
+        if ctx.time_left() < 300:
+            break
+
+
+# kinds of class-level descriptors (one object per class, state kept on the instance): classified by TYPE
+DESCRIPTOR_TYPES = {
+    'AllowOption', 'BaseUrlOption', 'BlockOption', 'BooleanOption', 'ConverterArgument', 'ConverterOption',
+    'DecimalTypeOption', 'DefuseOption', 'DepthFillerOption', 'DictClassOption', 'ElementHookOption',
+    'ElementTypeOption', 'EncodeSourceArgument', 'ErrorsArgument', 'ExtraValidatorOption', 'FillerOption',
+    'IterParseOption', 'LazyOption', 'ListClassOption', 'LoaderClassOption', 'LocationsOption',
+    'LogLevelOption', 'MaxDepthOption', 'NamespaceMapperArgument', 'NamespacesOption', 'NillableStringOption',
+    'NonNegIntOption', 'OpenerOption', 'PositiveIntOption', 'SchemaArgument', 'SelectorOption',
+    'SourceArgument', 'SourceOption', 'UriMapperOption', 'ValidationHookOption', 'ValidationOption',
+    'ValidationSourceArgument', 'ValueHookOption', 'XmlNsProcessingOption'}
+MODELLED_GLOBALS = {
+    ('caching.py', '', '_cached_functions', 'dict'): 'registry:import-time',
+    ('cli.py', '', 'CONVERTERS_MAP', 'dict'): 'outside-validation',
+    ('converters/base.py', '', '_indent', 'call:None'): 'constant',
+    ('extras/codegen.py', 'AbstractGenerator', 'builtin_types', 'dict'): 'outside-validation',
+    ('extras/codegen.py', 'PythonGenerator', 'builtin_types', 'dict'): 'outside-validation',
+    ('extras/codegen.py', 'PythonGenerator', 'searchpaths', 'list'): 'outside-validation',
+    ('locations.py', '', 'FALLBACK_LOCATIONS', 'dict'): 'constant',
+    ('locations.py', '', 'LOCATIONS', 'dict'): 'constant',
+    ('resources/xml_resource.py', 'XMLResource', '_context_lock', 'call:Lock'): 'constant',
+    ('settings.py', '', '_DEFAULT_RESOURCE_SETTINGS', 'call:ResourceSettings'): 'constant',
+    ('settings.py', '', '_DEFAULT_SCHEMA_SETTINGS', 'call:SchemaSettings'): 'constant',
+    ('testing/_observers.py', 'ObservedXMLSchema10', 'builders', 'call:ObservedBuilders'): 'outside-validation',
+    ('testing/_observers.py', 'ObservedXMLSchema11', 'xsd_builders', 'call:ObservedBuilders'): 'outside-validation',
+    ('testing/_observers.py', 'SchemaObserver', 'components', 'list'): 'outside-validation',
+    ('testing/_observers.py', 'SchemaObserver', 'dummy_components', 'list'): 'outside-validation',
+    ('utils/decoding.py', '', 'Empty', 'call:EmptyType'): 'constant',
+    ('utils/logger.py', '', 'LOG_LEVELS', 'set'): 'constant',
+    ('validators/builders.py', '', 'ANY_ATTRIB', 'dict'): 'constant',
+    ('validators/builders.py', '', 'ANY_ATTRIBUTE_ATTRIB', 'dict'): 'constant',
+    ('validators/builtins.py', '', 'BOOLEAN_FACETS', 'set'): 'constant',
+    ('validators/builtins.py', '', 'BUILTIN_TYPES', 'dict'): 'constant',
+    ('validators/builtins.py', '', 'COLLAPSE_WHITE_SPACE_ELEMENT', 'call:Element'): 'constant',
+    ('validators/builtins.py', '', 'DATETIME_FACETS', 'set'): 'constant',
+    ('validators/builtins.py', '', 'DECIMAL_FACETS', 'set'): 'constant',
+    ('validators/builtins.py', '', 'FLOAT_FACETS', 'set'): 'constant',
+    ('validators/builtins.py', '', 'PRESERVE_WHITE_SPACE_ELEMENT', 'call:Element'): 'constant',
+    ('validators/builtins.py', '', 'REPLACE_WHITE_SPACE_ELEMENT', 'call:Element'): 'constant',
+    ('validators/builtins.py', '', 'STRING_FACETS', 'set'): 'constant',
+    ('validators/builtins.py', '', 'XSD10_FLOAT_PATTERN_ELEMENT', 'call:Element'): 'constant',
+    ('validators/builtins.py', '', 'XSD11_FLOAT_PATTERN_ELEMENT', 'call:Element'): 'constant',
+    ('validators/facets.py', '', 'FACETS_CLASSES', 'dict'): 'constant',
+    ('validators/facets.py', '', 'XSD_10_FACETS_CLASSES', 'dict'): 'constant',
+    ('validators/facets.py', '', 'XSD_11_FACETS_CLASSES', 'call:copy'): 'constant',
+    ('validators/facets.py', 'XsdAssertionFacet', '_root', 'call:ElementNode'): 'constant',
+    ('validators/groups.py', '', 'ANY_ELEMENT', 'call:Element'): 'constant',
+    ('validators/helpers.py', '', 'XSD_BOOLEAN_MAP', 'dict'): 'constant',
+    ('validators/helpers.py', '', 'XSD_FINAL_ATTRIBUTE_VALUES', 'set'): 'constant',
+    ('validators/schemas.py', '', '_meta_registry', 'call:set'): 'registry:schema-creation',
+    ('validators/schemas.py', 'XMLSchema10', 'BASE_SCHEMAS', 'dict'): 'constant',
+    ('validators/schemas.py', 'XMLSchema10', 'builders', 'call:XsdBuilders'): 'constant',
+    ('validators/schemas.py', 'XMLSchema11', 'BASE_SCHEMAS', 'dict'): 'constant',
+    ('validators/schemas.py', 'XMLSchema11', 'builders', 'call:XsdBuilders'): 'constant',
+    ('validators/schemas.py', 'XMLSchemaBase', 'BASE_SCHEMAS', 'dict'): 'constant',
+    ('validators/simple_types.py', 'XsdAtomic', '_special_types', 'set'): 'constant',
+    ('validators/simple_types.py', 'XsdList', '_white_space_elem', 'call:Element'): 'constant',
+    ('validators/simple_types.py', 'XsdSimpleType', '_special_types', 'set'): 'constant',
+    ('validators/xsd_globals.py', '', '_strict', 'call:None'): 'constant',
+    ('xpath/identity_parser.py', 'IdentityXPathParser', 'symbol_table', 'dict'): 'constant',
+    ('xpath/mixin.py', 'ElementPathMixin', 'attributes', 'dict'): 'constant',
+    ('xpath/mixin.py', 'ElementPathMixin', 'namespaces', 'dict'): 'constant',
+    ('xpath/selectors.py', '', '_dummy_element', 'call:Element'): 'constant',
+    ('xpath/selectors.py', '', '_selectors_cache', 'dict'): 'process-cache',
+}
+# how every XPath evaluation site obtains its context: a per-call context is `percall_context_no_interference`,
+# anything else is the `shared_context_race_counterexample` shape until shown otherwise
+MODELLED_XPATH_SITES = [
+    ['validators/assertions.py', 'XsdAssert.__call__', 'evaluate', 'fresh'],
+    ['validators/elements.py', 'XsdAlternative.test', 'select', 'fresh'],
+    ['validators/elements.py', 'XsdElement.collect_key_fields', 'select_results', 'fresh'],
+    ['validators/facets.py', 'XsdAssertionFacet.__call__', 'evaluate', 'fresh'],
+    ['validators/identities.py', 'FieldValueSelector.__init__', 'select', 'fresh'],
+    ['validators/identities.py', 'FieldValueSelector.get_value', 'select', 'fresh'],
+    ['validators/identities.py', 'XsdIdentity.update_elements', 'select_results', 'fresh'],
+    ['xpath/find_parser.py', 'select__predicate', 'select', 'copy-of-param'],
+    ['xpath/mixin.py', 'ElementPathMixin.find', 'select_results', 'fresh'],
+    ['xpath/mixin.py', 'ElementPathMixin.iterfind', 'select_results', 'fresh'],
+    ['xpath/selectors.py', 'ElementSelector.iter_select', 'select', 'fresh'],
+]
+
+
+def classified_globals() -> list:
+    import re
+    out = []
+    for rel, cname, name, kind in L.scan_mutable_globals():
+        m = re.match(r'call:(\w+)$', kind)
+        if m and m.group(1) in DESCRIPTOR_TYPES:
+            out.append([rel, cname, name, kind, 'descriptor'])
+        else:
+            out.append([rel, cname, name, kind, MODELLED_GLOBALS.get((rel, cname, name, kind), 'unclassified')])
+    return out
+
+
+def shared_objects_table(ctx: Ctx) -> dict:
+    """Regenerates (a) the table of class-level / module-level mutable objects and (b) the table of XPath evaluation
+    sites from the source and compares them with the classified ones; returns the fingerprints of the objects that
+    validation must not mutate (compared again at the end of the run: `shared_objects_unchanged`)."""
+    rows = classified_globals()
+    ctx.traces += 1
+    unclassified = [r[:4] for r in rows if r[4] == 'unclassified']
+    gone = [list(k) for k in MODELLED_GLOBALS if list(k) not in [r[:4] for r in rows]]
+    if unclassified or gone:
+        ctx.mismatch('the table of class-level / module-level mutable objects of /repo differs from the classified table '
+                     '(such an object is shared by all threads and all schemas)', {'shared-objects': True},
+                     {'not classified': unclassified, 'not in the source any more': gone}, None)
+    for r in rows:
+        ctx.count('shared-objects:' + r[4])
+    sites = L.xpath_sites()
+    ctx.traces += 1
+    ctx.extra['xpath_sites'] = sites
+    if sites != MODELLED_XPATH_SITES:
+        ctx.mismatch('the XPath evaluation sites (how each obtains its context) differ from the modelled table: a context '
+                     'that is not built by the call is shared state', {'xpath-sites': True},
+                     [x for x in sites if x not in MODELLED_XPATH_SITES], [x for x in MODELLED_XPATH_SITES if x not in sites])
+    snap = {}
+    for rel, cname, name, kind, cl in rows:
+        if cl in ('constant', 'registry:import-time', 'unclassified'):
+            try:
+                snap[(rel, cname, name)] = L.fingerprint(L.resolve_global(rel, cname, name))
+            except Exception as e:      # noqa
+                ctx.count('shared-objects:not resolvable ' + type(e).__name__)
+    ctx.extra['shared_objects'] = [r for r in rows if r[4] != 'descriptor']
+    return snap
+
+
+def shared_objects_unchanged(ctx: Ctx, snap: dict) -> None:
+    """no validation / decoding / build of this whole run has changed a class-level or module-level object that is
+    classified as constant (a write to such an object from a call is a write to state shared by every thread)"""
+    for (rel, cname, name), before in snap.items():
+        ctx.traces += 1
+        try:
+            after = L.fingerprint(L.resolve_global(rel, cname, name))
+        except Exception:      # noqa
+            continue
+        if after != before:
+            ctx.mismatch('a class-level / module-level object was mutated while schemas were built and documents validated',
+                         {'shared-objects': f'{rel}:{cname}.{name}'}, before[:600], after[:600])
+
+
+def context_model_tie(ctx: Ctx, drv: Optional[Driver], impl_wrong: bool) -> None:
+    """`percall_context_no_interference` / `shared_context_race_counterexample` against the code: the mode is read
+    from the source (the assertion-facet site builds its context in the call or not); the model's answer for the
+    witness schedule (store 7 / store 700, evaluate / evaluate) must agree with what the exhaustive pre-emption of
+    XP_DOCS[0] by XP_DOCS[1] showed on the real code."""
+    if drv is None:
+        return
+    site = [x for x in L.xpath_sites() if x[1] == 'XsdAssertionFacet.__call__']
+    shared = not (site and all(x[3] == 'fresh' for x in site))
+    m = drv.query([{'op': 'xcexec', 'threads': 2, 'shared': shared, 'gap': 1, 'vals': [[7], [700]],
+                    'sched': [0, 0, 1, 1, 1, 1, 1, 0, 0, 0]}])[0]
+    ctx.traces += 1
+    model_wrong = m.get('res', [[7]])[0] != [7]
+    ctx.extra['assertion_context'] = {'shared (from the source)': shared, 'model thread 0 evaluates on': m.get('res'),
+                                      'code: some pre-emption changed a result': impl_wrong}
+    if model_wrong != impl_wrong:
+        ctx.mismatch('evaluation context of the assertion facet: model and code disagree on interference',
+                     {'context-tie': True}, {'impl_wrong': impl_wrong, 'shared': shared}, m)
+
+
+
 def load_findings() -> list:
     if FINDINGS_FILE.exists():
         return json.loads(FINDINGS_FILE.read_text()).get('findings', [])
@@ -1419,6 +1775,18 @@ def run(ctx: Ctx, driver_ok: bool) -> None:
         cache_table(ctx)
         cache_hypotheses(ctx, pools[:ctx.pick(2, 4)])
         scratch_noninterference(ctx)
+        # 0b'. shared objects outside the schema (class attributes, module globals), XPath evaluation contexts
+        snap = shared_objects_table(ctx)
+        xpbase = Baseline(XP_XSD)
+        w01 = preemption_family(ctx, xpbase, XP_DOCS, XP_PAIRS[:2], 10 ** 9, 'xp-assertion')
+        context_model_tie(ctx, drv, w01)
+        preemption_family(ctx, xpbase, XP_DOCS, XP_PAIRS[2:ctx.pick(8, 10)], ctx.pick(250, 2500), 'xp')
+        if ctx.tier != 'quick':
+            allp = [(a, b) for a in range(len(XP_DOCS)) for b in range(len(XP_DOCS)) if a != b and (a, b) not in XP_PAIRS]
+            preemption_family(ctx, xpbase, XP_DOCS, allp, 60, 'xp-all')
+        preemption_family(ctx, base, POOL_DOCS, [(1, 2), (2, 1), (3, 11)], ctx.pick(150, 1500), 'pool')
+        xpath_family(ctx, batch, xpbase, ctx.pick(60, 600))
+        flush(ctx, batch, drv)
         # 0c. LINE granularity inside the modelled functions, 2-3 threads, small schemas
         lbatch: list = []
         if not L.BuildLines().ok:
@@ -1434,6 +1802,8 @@ def run(ctx: Ctx, driver_ok: bool) -> None:
                 line_build_experiment(ctx, lbatch, base if i % 2 == 0 else f3base, POOL_DOCS if i % 2 == 0 else F3_DOCS, n, seed, p_line, i)
             elif kind == 1:
                 line_widen_experiment(ctx, lbatch, f3base, F3_DOCS, n, seed, p_line, i, variant, 'f3')
+            elif i % 12 == 5:
+                line_widen_experiment(ctx, lbatch, xpbase, XP_DOCS, n, seed, p_line, i, variant, 'xp')
             else:
                 line_widen_experiment(ctx, lbatch, base, [POOL_DOCS[j] for j in (1, 2, 3, 11, 0)], n, seed, p_line, i, variant, 'pool')
             if len(lbatch) > 40:
@@ -1485,6 +1855,7 @@ def run(ctx: Ctx, driver_ok: bool) -> None:
             if ctx.time_left() < 120:
                 break
         flush(ctx, batch, drv)
+        shared_objects_unchanged(ctx, snap)
     finally:
         sys.setswitchinterval(old_interval)
         Events.target = None
@@ -1495,7 +1866,11 @@ def run(ctx: Ctx, driver_ok: bool) -> None:
                                 'collect_key_fields / the cache front ends with replay of the line + shared-state event '
                                 'logs on the statement-level models (replayL, xwreplay, creplay); table of memoised '
                                 'functions regenerated from the source; hypotheses of the benign-race theorems checked '
-                                'on the real objects')
+                                'on the real objects; exhaustive single-preemption at every xmlschema/elementpath call '
+                                'boundary on an XSD 1.1 pool (assertion facets, xs:assert, alternatives, identities, open '
+                                'content) and random schedules switching inside elementpath; tables of class-level / '
+                                'module-level mutable objects and of XPath evaluation sites regenerated from the source, '
+                                'content fingerprints of the constant ones compared before/after the run')
 
 
 def search(ctx: Ctx) -> None:
@@ -1543,6 +1918,19 @@ def replay(ctx: Ctx, obj: dict) -> int:
         flush_lines(ctx, lbatch, drv)
         for m in ctx.mismatches[:3]:
             print('MODEL != CODE:', m['correspondence'], json.dumps(m['model'])[:600])
+    elif case.get('preempt'):
+        base = Baseline(case['xsd'])
+        schema = fresh(case['xsd'], True)
+        a, b = case['docs']
+        for _ in range(2):      # as in the family: the switch point is counted on a schema whose caches are warm
+            preempt_once(schema, case['op'], a, b, -1)
+        got_a, got_b, _ = preempt_once(schema, case['op'], a, b, case['k'])
+        for name, doc, got in (('A', a, got_a), ('B', b, got_b)):
+            want = base.result(case['op'], doc)
+            print(f'thread {name}: threaded {json.dumps(got)[:400]}\n          single   {json.dumps(want)[:400]}')
+            if got != want:
+                ctx.failure('a call on the shared schema returns a result different from the single-threaded one', case,
+                            {'thread': name, 'threaded': got, 'single': want})
     elif case.get('scratch'):
         scratch_noninterference(ctx)
     elif case.get('forced') == 'F3':
@@ -1566,7 +1954,8 @@ def replay(ctx: Ctx, obj: dict) -> int:
             sched = Sched(n, random.Random(case.get('seed', rep) + 1), case['plan']) if 'plan' in case else None
             if sched is None:
                 sys.setswitchinterval(1e-6)
-            experiment(ctx, batch, base, case, jobs, sched, case.get('build_first', True))
+            experiment(ctx, batch, base, case, jobs, sched, case.get('build_first', True),
+                       make_xpath_tracer if case.get('tracer') == 'xpath' else None)
             if ctx.failures:
                 break
         print('note: a schedule found by the seeded scheduler is re-explored with fresh seeds; the race is '
